@@ -25,8 +25,10 @@ RANDOMISED = {
                    ("refined_AAFT_surrogates", {"n_iterations": 2}),
                    ("refined_AAFT_surrogates", {"n_iterations": 2,
                                                 "output": "true_spectrum"}),
+                   # same threshold / min_dist as the twins() patterns, so
+                   # that both meet in one memo entry
                    ("twin_surrogates", {"dimension": 2, "delay": 1,
-                                        "threshold": 0.6, "min_dist": 2}),
+                                        "threshold": 0.5, "min_dist": 1}),
                    ("original_distribution", {
                        "test_function": "@static:test_pearson_correlation",
                        "n_bins": 4}),
